@@ -84,6 +84,9 @@ func Alphabet() []Sym {
 			return p.Msg("A", fixref.F(THeartBt, strconv.Itoa(mid(lim))), fixref.F(TUser, "user"), fixref.F(TPass, "pw"))
 		}},
 		{Name: "LogonBadChecksum", LogonClass: LogonBadChecksum, Type: "A", Build: func(p *Peer, lim [2]int) []byte { return BadChecksum(p.Logon(mid(lim), "0")) }},
+		{Name: "LogonChecksumNotThreeDigits", LogonClass: LogonBadChecksum, Type: "A", Build: func(p *Peer, lim [2]int) []byte {
+			return ChecksumOtherForm(p.Logon(mid(lim), "0", fixref.F(TUser, "user"), fixref.F(TPass, "pw")), p.Seq)
+		}},
 		{Name: "LogonBadLength", LogonClass: LogonBadLength, Type: "A", Build: func(p *Peer, lim [2]int) []byte { return BadLength(p.Logon(mid(lim), "0")) }},
 		{Name: "LogonNonNumericHb", LogonClass: LogonNonNumericHb, Type: "A", Build: func(p *Peer, lim [2]int) []byte {
 			return p.Msg("A", fixref.F(TEncrypt, "0"), fixref.F(THeartBt, "3x"))
@@ -98,6 +101,14 @@ func Alphabet() []Sym {
 		}},
 		{Name: "LogonBodyLengthWrapsAround2^64", LogonClass: LogonBadLength, Type: "A", Build: func(p *Peer, lim [2]int) []byte {
 			return HugeLength(p.Logon(mid(lim), "0", fixref.F(TUser, "user"), fixref.F(TPass, "pw")))
+		}},
+		// two reasons to refuse at once: an unacceptable parameter AND credentials the application refuses — there is an
+		// offending field, and the Reject names it
+		{Name: "LogonHbAboveMaxAndCredsRefused", LogonClass: LogonHbHigh, Type: "A", Build: func(p *Peer, lim [2]int) []byte {
+			return p.Logon(lim[1]+1, "0", fixref.F(TUser, BadUser), fixref.F(TPass, "x"))
+		}},
+		{Name: "LogonBadMethodAndCredsRefused", LogonClass: LogonBadMethod, Type: "A", Build: func(p *Peer, lim [2]int) []byte {
+			return p.Logon(mid(lim), "1", fixref.F(TUser, BadUser), fixref.F(TPass, "x"))
 		}},
 		{Name: "Heartbeat", Type: "0", Build: func(p *Peer, lim [2]int) []byte { return p.Heartbeat() }},
 		{Name: "TestRequest", Type: "1", Build: func(p *Peer, lim [2]int) []byte { return p.TestRequest("id" + strconv.Itoa(p.Seq+1)) }},
